@@ -148,7 +148,7 @@ theorem untouched_by_sequence (as : Attrs) (ops : List Op) (j : Int) (h : ∀ o 
   | nil => rfl
   | cons o ops ih =>
     rw [List.foldl_cons, ih _ (fun o' ho' => h o' (List.mem_cons_of_mem _ ho'))]
-    exact filter_eq_of_filter_ne as (stepModel as o) j o.key
+    exact attrsFilter_eq_of_filter_ne as (stepModel as o) j o.key
       (fun e => h o List.mem_cons_self e.symm) (others_untouched as o)
 
 /-- After any operation sequence, the value `Lookup` reports for a type is decided by the LAST
